@@ -428,6 +428,11 @@ def make_fixture(env, fid, spec):
         if spec.get("setup_override"):
             def setUp(self):
                 super().setUp()
+                if spec["setup_override"] == "multi2":
+                    # a composite old-style fixture reporting two failures of its parts at once (no SetupError:
+                    # that is what fixtures.Fixture.setUp itself appends)
+                    _do_raise(env, None, ["multi", [["raise", "error", "FX:" + fid + ".a"],
+                                                    ["raise", "fail", "FX:" + fid + ".b"]], "FXM:" + fid])
                 _do_raise(env, None, ["raise", spec["setup_override"], "FX:" + fid])
 
         def _logged_cleanup(self):
